@@ -275,4 +275,262 @@ def Ty.isNum : Ty → Bool
   | .uns _ | .sgn _ | .int => true
   | _ => false
 
+/-! ### casts for targets with a ref-spec (slices, views): same core, other kind conversions -/
+
+/-- strip the kind conversions `unsigned(.) signed(.) std_logic_vector(.)` at the top of a printed cast -/
+def core : VExpr → VExpr
+  | .asUns e | .asSgn e | .asSlv e => core e
+  | e => e
+
+/-- VHDL kind of the value of a cast whose core has kind kc -/
+def wrapKind : VExpr → VKind → VKind
+  | .asUns _, _ => .uns
+  | .asSgn _, _ => .sgn
+  | .asSlv _, _ => .slv
+  | _, kc => kc
+
+def srcKind : Ty → VKind
+  | .uns _ => .uns | .sgn _ => .sgn | _ => .slv
+
+theorem evalV_core_of_vec (e : VExpr) (v : VVal) (k : VKind) (w p : Nat) (h : evalV e v = .vec k w p) :
+    ∃ kc, evalV (core e) v = .vec kc w p := by
+  induction e generalizing k with
+  | asUns e ih | asSgn e ih | asSlv e ih =>
+    simp only [evalV] at h
+    cases hv : evalV e v with
+    | vec k' w' p' => rw [hv] at h; injection h with _ hw hp; subst hw; subst hp; exact ih k' hv
+    | sl _ | bool _ | int _ | err => all_goals (rw [hv] at h; exact absurd h (by simp))
+  | x | resize _ _ _ | toUnsigned _ _ _ | toSigned _ _ _ | boolToSl _ _ | eqOne _ _ | neZero _ _ | toInteger _ _ =>
+    all_goals exact ⟨k, by simpa [core] using h⟩
+
+theorem evalV_of_core (e : VExpr) (v : VVal) (kc : VKind) (w p : Nat) (h : evalV (core e) v = .vec kc w p) :
+    evalV e v = .vec (wrapKind e kc) w p := by
+  induction e with
+  | asUns e ih | asSgn e ih | asSlv e ih =>
+    all_goals (simp only [core] at h; simp only [evalV, ih h, wrapKind])
+  | x | resize _ _ _ | toUnsigned _ _ _ | toSigned _ _ _ | boolToSl _ _ | eqOne _ _ | neZero _ _ | toInteger _ _ =>
+    all_goals (simpa [core, wrapKind] using h)
+
+theorem castModel_shape (k : Kind) (t s : Ty) (e e0 : VExpr) (ht : t.isVec = true) (hs : s.isVec = true)
+    (hf : assignFront t (.rt s) = true) (h : castModel (mkVec k t.width) t s = some e) (h0 : castModel t t s = some e0) :
+    core e = core e0 ∧ (core e0 = .x ∨ core e0 = .resize .x t.width) ∧ wrapKind e (srcKind s) = vkind k := by
+  cases k <;> cases t <;> cases s <;> simp [Ty.isVec] at ht hs <;> simp [assignFront] at hf <;>
+    simp only [castModel, mkVec, Ty.width] at h h0 <;>
+    (try split at h) <;> (try split at h) <;> (try split at h0) <;> (try split at h0) <;>
+    first
+      | (simp at h; done)
+      | (simp at h0; done)
+      | (injection h with h; injection h0 with h0; subst h; subst h0
+         try simp only [beq_iff_eq] at *
+         first
+          | (simp [core, wrapKind, srcKind, vkind, Ty.width]; done)
+          | (exfalso; omega)
+          | (simp [core, wrapKind, srcKind, vkind, Ty.width]; omega))
+
+/-- the cast for a target whose VHDL object has the target's own type -/
+theorem castGood_plain (t s : Ty) (x : Int) (hnr : mustReject t (.rt s) = false)
+    (hback : (castModel t t s).isSome = true) (hs : s ≠ .int)
+    (hwt : t.wf = true) (hws : s.wf = true) (hx : inRange s x = true) : CastGood t t s x := by
+  cases t <;> cases s <;> simp_all [castModel, mustReject, Ty.wf]
+  all_goals first
+    | exact cast_bit_bit x hx
+    | exact cast_bit_bool x hx
+    | exact cast_bool_bit x hx
+    | exact cast_bool_bool x hx
+    | exact cast_bool_bv _ x hx
+    | exact cast_bool_uns _ x hx
+    | exact cast_bool_sgn _ hws x hx
+    | exact cast_same_bv _ x hx
+    | exact cast_bv_uns _ x hx
+    | exact cast_bv_sgn _ x
+    | exact cast_uns_bv _ x hx
+    | exact cast_sgn_bv _ x hx
+    | exact cast_sgn_uns _ _ x hnr hx
+    | exact cast_int_uns _ x hx
+    | exact cast_int_sgn _ hws x hx
+    | (rename_i n m
+       by_cases e : n = m
+       · subst e; first | exact cast_same_uns _ x hx | exact cast_same_sgn _ hws x hx
+       · first | exact cast_uns_uns n m x (by omega) hx | exact cast_sgn_sgn n m hws x (by omega) hx)
+
+theorem front_plain_cast (t s : Ty) (ht : t.isVec = true) (hs : s.isVec = true)
+    (hf : assignFront t (.rt s) = true) : (castModel t t s).isSome = true := by
+  cases t <;> cases s <;> simp [Ty.isVec] at ht hs <;> simp [assignFront] at hf <;>
+    simp only [castModel] <;> (try split) <;> (try split) <;> simp_all <;> omega
+
+theorem decodeAs_vec (t : Ty) (ht : t.isVec = true) (v : VVal) (c : Int) (h : decodeAs t v = some c) :
+    ∃ k p, v = .vec k t.width p := by
+  cases t <;> simp [Ty.isVec] at ht <;> cases v <;> simp [decodeAs] at h <;>
+    (rename_i n k w p; exact ⟨k, p, by simp [Ty.width, h.1]⟩)
+
+theorem decodeAs_kind (t : Ty) (k k' : VKind) (w p : Nat) : decodeAs t (.vec k w p) = decodeAs t (.vec k' w p) := by
+  cases t <;> simp [decodeAs]
+
+theorem core_kind (s : Ty) (hs : s.isVec = true) (x : Int) (c : VExpr) (n : Nat) (hc : c = .x ∨ c = .resize .x n)
+    (kc : VKind) (w p : Nat) (h : evalV c (encode s x) = .vec kc w p) : kc = srcKind s := by
+  rcases hc with rfl | rfl <;> cases s <;> simp [Ty.isVec] at hs <;>
+    simp [evalV, encode, vresize, srcKind] at h ⊢
+  all_goals first
+    | exact h.1.symm
+    | (split at h <;> simp at h <;> exact h.1.symm)
+
+theorem wellTyped_mkVec (k : Kind) (n p : Nat) : vhdlWellTyped (mkVec k n) (.vec (vkind k) n p) = true := by
+  cases k <;> simp [mkVec, vkind, vhdlWellTyped]
+
+/-! ### values of merges -/
+
+theorem initFront_rt (r s : Ty) (h : initFront r (.rt s) = true) : assignFront r (.rt s) = true := by
+  cases r <;> cases s <;> simp_all [initFront, assignFront]
+
+theorem assignValue_rt (t s : Ty) (x : Int) (hf : assignFront t (.rt s) = true)
+    (hb : (castModel t t s).isSome = true) (hs : s ≠ .int) (hwt : t.wf = true) (hws : s.wf = true)
+    (hx : inRange s x = true) : assignValue t (.rt s) x = some (convert t s x) := by
+  obtain ⟨e, he, _, hd⟩ := castGood_plain t s x (front_not_reject _ _ hf) hb hs hwt hws hx
+  simp [assignValue, he, hd]
+
+theorem twos_inRange (n : Nat) (hn : 0 < n) (x : Int) (h0 : 0 ≤ x) (h1 : x ≤ 2 ^ n - 1) :
+    -(2 ^ (n - 1)) ≤ twos n x ∧ twos n x ≤ 2 ^ (n - 1) - 1 := by
+  have := two_pow_pred hn
+  unfold twos; split <;> omega
+
+theorem convert_inRange (r s : Ty) (x : Int) (hf : assignFront r (.rt s) = true) (hs : s ≠ .int)
+    (hwr : r.wf = true) (hws : s.wf = true) (hx : inRange s x = true) : inRange r (convert r s x) = true := by
+  cases r <;> cases s <;> simp_all [assignFront, convert, Ty.wf]
+  all_goals first
+    | (simp [inRange]; done)
+    | (simp only [inRange_bit, inRange_bool] at *; first | exact hx | (split <;> simp))
+    | (rename_i n m
+       simp only [inRange_uns, inRange_sgn, inRange_bv] at *
+       have h2 := two_pow_pos n
+       first
+        | (have h1 := two_pow_mono (show m ≤ n by omega); omega)
+        | (have h1 := two_pow_mono (show m - 1 ≤ n - 1 by omega); omega)
+        | (have h1 := two_pow_mono (show m ≤ n - 1 by omega); have h3 := two_pow_pos (n - 1); omega))
+    | (rename_i n
+       simp only [inRange_uns, inRange_sgn, inRange_bv] at *
+       have h2 := two_pow_pos n
+       first
+        | omega
+        | (have := Int.emod_nonneg x (show (2 : Int) ^ n ≠ 0 by omega); have := Int.emod_lt_of_pos x h2; omega)
+        | (exact twos_inRange n (by omega) x (by omega) (by omega)))
+
+theorem twos_emod (n : Nat) (hn : 0 < n) (x : Int) (hx : inRange (.bv n) x = true) : twos n x % 2 ^ n = x := by
+  rw [inRange_bv] at hx
+  have hp := two_pow_pos n
+  have h1 := two_pow_pred hn
+  unfold twos
+  split
+  · exact emod_pos_case hx.1 (by omega)
+  · rw [emod_neg_case (by omega) (by omega)]; omega
+
+/-- going through a join type does not change what arrives: permitted steps compose to the direct conversion -/
+theorem convert_comp (t r s : Ty) (x : Int) (hrs : assignFront r (.rt s) = true) (htr : assignFront t (.rt r) = true)
+    (hal : allowed t (.rt s) = true) (hs : s ≠ .int) (hr : r ≠ .int) (hws : s.wf = true) (hwr : r.wf = true)
+    (hx : inRange s x = true) : convert t r (convert r s x) = convert t s x := by
+  cases t <;> cases r <;> cases s <;> simp_all [assignFront, allowed, convert, Ty.wf]
+  · exact twos_emod _ hws x hx
+  · exact twos_pattern' hws hx
+
+/-- an int / bool literal that reaches the target through a join type r -/
+theorem literal_comp (t r : Ty) (l : Src) (hl : (∃ k, l = .lit k) ∨ (∃ b, l = .blit b))
+    (hrl : initFront r l = true) (htr : assignFront t (.rt r) = true) (hal : allowed t l = true)
+    (hr : r ≠ .int) :
+    ∃ y, convertLit r l = some y ∧ inRange r y = true ∧ some (convert t r y) = convertLit t l := by
+  rcases hl with ⟨k, rfl⟩ | ⟨b, rfl⟩
+  · cases t <;> cases r <;> simp_all [initFront, assignFront, allowed, convert, convertLit, inRange]
+    all_goals first
+      | omega
+      | (rcases hal with h | h <;> simp [h]; done)
+      | (rename_i n m; simp only [sgnMin, sgnMax] at *; have := two_pow_pos (n - 1); have := two_pow_pos (m - 1); omega)
+      | (rename_i n; simp only [sgnMin, sgnMax] at *; have := two_pow_pos (n - 1); omega)
+  · cases t <;> cases r <;> cases b <;> simp_all [initFront, assignFront, allowed, convert, convertLit, inRange]
+    all_goals first
+      | omega
+      | (rcases hal with h | h <;> simp [h]; done)
+      | (rename_i n m; simp only [sgnMin, sgnMax] at *; have := two_pow_pos (n - 1); have := two_pow_pos (m - 1); omega)
+      | (rename_i n; simp only [sgnMin, sgnMax] at *; have := two_pow_pos (n - 1); omega)
+
+theorem sameLiteral_mem (opts : List Src) (a : Src) (h : sameLiteral opts = some a) :
+    a.isLit = true ∧ ∀ o ∈ opts, o = a := by
+  cases opts with
+  | nil => simp [sameLiteral] at h
+  | cons b rest =>
+    simp only [sameLiteral] at h
+    split at h
+    · rename_i hc
+      injection h with h; subst h
+      simp only [Bool.and_eq_true, List.all_eq_true, beq_iff_eq] at hc
+      refine ⟨hc.1, ?_⟩
+      intro o ho
+      rcases List.mem_cons.mp ho with rfl | ho
+      · rfl
+      · exact hc.2 o ho
+    · exact absurd h (by simp)
+
+theorem tryJoin_no_nullfull (opts : List Src) (r : Ty) (h : tryJoin opts = some r) (o : Src) (ho : o ∈ opts) :
+    o ≠ .null ∧ o ≠ .full := by
+  unfold tryJoin at h
+  split at h
+  · exact absurd h (by simp)
+  · rename_i hany
+    simp only [List.any_eq_true, not_exists, not_and, Bool.or_eq_true, beq_iff_eq, not_or] at hany
+    exact hany o ho
+
+theorem backOk_assign_rt (t s : Ty) : backOk .assign t (.rt s) = (castModel t t s).isSome := by
+  cases t <;> simp [backOk, vhdlTarget]
+
+theorem assignValue_lit (t : Ty) (l : Src) (x : Int) (hl : l.isLit = true) : assignValue t l x = convertLit t l := by
+  cases l <;> simp_all [assignValue, Src.isLit]
+
+/-! ### the join type of `_try_join` is the type of an alternative (or bool) -/
+
+theorem joinStep_cases (r : Option Ty) (o : Src) (r2 : Option Ty) (h : joinStep r o = some r2) :
+    r2 = r ∨ (r = none ∧ r2 = joinStart o) ∨ (r2 = some .bit ∧ o = .rt .bit) := by
+  unfold joinStep at h
+  repeat' split at h
+  all_goals first
+    | (simp at h; done)
+    | (injection h with h; subst h; simp)
+
+theorem joinStep_inv (opts : List Src) (r : Option Ty) (o : Src) (ho : o ∈ opts)
+    (hinv : ∀ r', r = some r' → (.rt r' ∈ opts ∨ r' = .bool)) (r2 : Option Ty) (h : joinStep r o = some r2) :
+    ∀ r', r2 = some r' → (.rt r' ∈ opts ∨ r' = .bool) := by
+  intro r' hr'
+  rcases joinStep_cases r o r2 h with h1 | ⟨_, h1⟩ | ⟨h1, h2⟩
+  · exact hinv r' (by rw [← h1, hr'])
+  · rw [hr'] at h1
+    cases o <;> simp [joinStart] at h1
+    · subst h1; exact Or.inl ho
+    · subst h1; exact Or.inr rfl
+  · rw [hr'] at h1; injection h1 with h1; subst h1; subst h2; exact Or.inl ho
+
+theorem foldl_join_inv (opts l : List Src) (hl : ∀ o ∈ l, o ∈ opts) (acc : Option (Option Ty))
+    (hinv : ∀ r r', acc = some r → r = some r' → (.rt r' ∈ opts ∨ r' = .bool)) :
+    ∀ r r', l.foldl (fun acc o => acc.bind (fun r => joinStep r o)) acc = some r → r = some r' →
+      (.rt r' ∈ opts ∨ r' = .bool) := by
+  induction l generalizing acc with
+  | nil => simpa using hinv
+  | cons o rest ih =>
+    simp only [List.foldl_cons]
+    apply ih (fun o' ho' => hl o' (List.mem_cons_of_mem _ ho'))
+    intro r r' hacc hr
+    cases acc with
+    | none => simp at hacc
+    | some a =>
+      simp only [Option.bind_some] at hacc
+      exact joinStep_inv opts a o (hl o (List.mem_cons_self ..)) (fun r'' h => hinv a r'' rfl h) r hacc r' hr
+
+/-- the join type is the type of one of the run-time alternatives, or bool (from True / False) -/
+theorem tryJoin_type (opts : List Src) (r : Ty) (h : tryJoin opts = some r) : .rt r ∈ opts ∨ r = .bool := by
+  unfold tryJoin at h
+  split at h
+  · exact absurd h (by simp)
+  · split at h
+    · rename_i r' hf
+      split at h
+      · injection h with h; subst h
+        exact foldl_join_inv opts opts (fun _ ho => ho) (some none) (by intro r r' h1 h2; simp at h1; subst h1; simp at h2) _ _ hf rfl
+      · exact absurd h (by simp)
+    · exact absurd h (by simp)
+
 end CohdlVerif.C05
